@@ -1,7 +1,7 @@
 """C15 -- every traversal visits each node or edge exactly once in its defining order.
 
 Bounded stand-in (T2).  Scope: EVERY ordered rooted tree with <= N nodes (N = 9
-quick, 12 thorough; single node, unifurcations anywhere including the root, wide
+quick, 11 thorough; single node, unifurcations anywhere including the root, wide
 polytomies are all in there), x every start node, x 7 filter predicates, x every
 iterator of Node and Tree (and every value of their boolean options), compared with
 the recursive reference definitions of /verif/specs/traversal.py.  A seeded sample
@@ -535,7 +535,7 @@ def _report(ctx, totals):
 
 def t2(ctx):
     _deprecate.configure_deprecation_warning_behavior("ignore")
-    nmax = 9 if ctx.tier == "quick" else 12
+    nmax = 9 if ctx.tier == "quick" else 11
     totals = dict(calls=0, fails={}, cand={})
 
     sc = "traversals@all-trees<=%d" % nmax
